@@ -452,6 +452,7 @@ def main():
                              "model_output": o2.get(i), "id": c2[i][3]}
         rec = {"property": pid, "seed": seed, "tier": tier,
                "no_longer_checks": broken,
+               "translator_output": [{"name": t[0], "output": t[2][-3000:]} for t in tr],
                "correspondence_disagreements": [case_rec(v[0]) for v in mism[:5]]}
         if found:
             rec["kind"] = "oracle-fails-on-implementation (found by widened search)"
